@@ -266,7 +266,7 @@ func (r *Runner) startPut(id, obj, ver int, chunking, fault string) {
 
 // consumeMode consumes a buffer returned by the store in one of the ways clients do: "s" ToByteSlice, "r" ToReader
 // read to the end, "c" ToChunkReader in small chunks, "w" IntoWriter, "a" ReadAt piecewise; "p" ToReader closed after
-// one byte and "d" Discard abandon the data (kind "abandoned": the outcome of the read is not observed).
+// one byte, "d" Discard and "x" ToByteSlice with a limit below the size abandon the data (kind "abandoned": the outcome of the read is not observed).
 func consumeMode(b buffer.Buffer, mode string, size int) (string, []byte) {
 	var data []byte
 	var err error
@@ -313,6 +313,13 @@ func consumeMode(b buffer.Buffer, mode string, size int) (string, []byte) {
 		return "abandoned", nil
 	case "d":
 		b.Discard()
+		return "abandoned", nil
+	case "x":
+		// a client-side size limit below the object's size: the call fails, the buffer must still be released
+		if size == 0 {
+			return consume(b)
+		}
+		b.ToByteSlice(size - 1)
 		return "abandoned", nil
 	default:
 		return consume(b)
